@@ -162,6 +162,85 @@ CATALOGUE['C07'].append((F, 'R-ITERORDER', 'pncgen.py', '        for k in pfile.
 CATALOGUE['C19'].append((F, 'R-LINESTATE', 'icarttfiles/ffi1001.py', "USER_COMMENT_COUNT_LINE = (12 + len(missing) + 2 +", "USER_COMMENT_COUNT_LINE = (12 + len(missing) + 1 +"))
 CATALOGUE['C20'].append((F, 'R-RECLEN', 'noaafiles/_arl.py', "(50 + ncell - hlen - thdtype.itemsize)", "(52 + ncell - hlen - thdtype.itemsize)"))
 
+# ---- entries for the rules generalised after the held-out wave
+_IO = 'cmaqfiles/_ioapi.py'
+_ARL = 'noaafiles/_arl.py'
+_FFI = 'icarttfiles/ffi1001.py'
+CATALOGUE['C04'] += [
+  (F, 'R-STACKAXIS', 'core/_files.py', "[f_.variables[varkey][:] for f_ in fs], axis=axisi)\n                    else:", "[f_.variables[varkey][:] for f_ in fs])\n                    else:"),
+  (F, 'R-STACKAXIS', 'core/_functions.py', "                    axisi = list(var.dimensions).index(stackdim)", "                    axisi = 0"),
+  (F, 'R-UNLIM', 'core/_functions.py', "tmpf.dimensions[stackdim].isunlimited())", "tmpf.dimensions[stackdim].isunlimited)"),
+  (S, None, 'core/_functions.py', "                    axisi = list(var.dimensions).index(stackdim)", "                    axisi = var.dimensions.index(stackdim)"),
+]
+CATALOGUE['C01'] += [
+  (F, 'R-UNLIM', 'core/_functions.py', "tmpf.dimensions[stackdim].isunlimited())", "tmpf.dimensions[stackdim].isunlimited)"),
+]
+CATALOGUE['C05'] += [
+  (F, 'R-QMUT', 'core/_files.py', "vals = np.ma.masked_where(where, vals)", "vals = np.ma.masked_where(where, vals, copy=False)"),
+  (S, None, 'core/_files.py', "vals = np.ma.masked_where(where, vals)", "vals = np.ma.masked_where(where, vals, copy=True)"),
+]
+CATALOGUE['C10'] += [
+  (F, 'R-LISTDIMS', _IO, "                or dims == ('TSTEP', 'LAY', 'PERIM')", "                or dims[:2] == ('TSTEP', 'LAY')"),
+  (F, 'R-LISTDIMS', _IO, "                dims == ('TSTEP', 'LAY', 'ROW', 'COL')\n                or dims == ('TSTEP', 'LAY', 'PERIM')", "                dims == ('TSTEP', 'LAY', 'ROW', 'COL')"),
+  (S, None, _IO, "                dims == ('TSTEP', 'LAY', 'ROW', 'COL')\n                or dims == ('TSTEP', 'LAY', 'PERIM')", "                dims in (('TSTEP', 'LAY', 'PERIM'), ('TSTEP', 'LAY', 'ROW', 'COL'))"),
+  (F, 'R-STARTSET', _IO, "            outf.STIME = int(times[0].strftime('%H%M%S'))\n            if times.size > 1:\n", "            if times.size > 1:\n                outf.STIME = int(times[0].strftime('%H%M%S'))\n"),
+  (F, 'R-NEWEDGES', _IO, "outf.VGLVLS = vglvls.view(np.ndarray).astype('f')", "outf.VGLVLS = myvglvls.view(np.ndarray).astype('f')"),
+  (S, None, _IO, "outf.VGLVLS = vglvls.view(np.ndarray).astype('f')", "outf.VGLVLS = np.asarray(vglvls).astype('f')"),
+]
+CATALOGUE['C11'] += [
+  (F, 'R-KINDS', _IO, "            dk: not np.isscalar(dv) and not isinstance(dv, slice)\n            for dk, dv in dimslices.items()", "            dk: not isinstance(dv, (int, slice))\n            for dk, dv in dimslices.items()"),
+  (S, None, _IO, "            dk: not np.isscalar(dv) and not isinstance(dv, slice)\n            for dk, dv in dimslices.items()", "            dk: not (np.isscalar(dv) or isinstance(dv, slice))\n            for dk, dv in dimslices.items()"),
+  (F, 'R-LAYNORM', _IO, "            lidx = np.array(\n                np.arange(outf.VGLVLS.size - 1)[kwds['LAY']], ndmin=1\n            )", "            lidx = np.array(kwds['LAY'], ndmin=1)"),
+  (F, 'R-HMSENC', _IO, "                outf.TSTEP = int(\n                    (datetime.datetime(1900, 1, 1, 0) +\n                     dt[0]).strftime('%H%M%S'))", "                secs = int(dt[0].total_seconds())\n                outf.TSTEP = secs // 3600 * 10000 + secs % 3600 // 60 + secs % 60"),
+  (S, None, _IO, "                outf.TSTEP = int(\n                    (datetime.datetime(1900, 1, 1, 0) +\n                     dt[0]).strftime('%H%M%S'))", "                secs = int(dt[0].total_seconds())\n                outf.TSTEP = secs // 3600 * 10000 + secs % 3600 // 60 * 100 + secs % 60"),
+]
+CATALOGUE['C13'] += [
+  (F, 'R-RECPOS', 'camxfiles/uamiv/Read.py', "nid = ntime // self.__spcrecords(self.nspec + 1)", "nid = ntime // self.nspec"),
+]
+CATALOGUE['C15'] += [
+  (F, 'R-ASKED', '_getreader.py', "            if ext in rdict:\n                _myreaders.insert(0, (ext, rdict[ext]))", "            if ext in rdict:\n                if getattr(rdict[ext], 'isMine', False):\n                    return rdict[ext]"),
+  (F, 'R-SNIFFAGREE', _FFI, "readline().strip()[-4:]", "readline().split()[-1]"),
+  (S, None, _FFI, "readline().strip()[-4:]", "readline().rstrip()[-4:]"),
+  (F, 'R-ISMINEPURE', 'camxfiles/uamiv/Memmap.py', "        return name in ('AIRQUALITY', 'EMISSIONS', 'INSTANT', 'AVERAGE')", "        return name in _uamiv_names\n\n\n_uamiv_names = (k for k in ('AIRQUALITY', 'EMISSIONS', 'INSTANT', 'AVERAGE'))"),
+]
+CATALOGUE['C18'] += [
+  (F, 'R-KWFORWARD', 'geoschemfiles/_bpchmaster.py', "            nogroup=nogroup, noscale=noscale,\n            vertgrid=vertgrid\n        )", "            nogroup=nogroup,\n            vertgrid=vertgrid\n        )"),
+  (F, 'R-KWFORWARD', 'geoschemfiles/_bpchmaster.py', "            nogroup=nogroup, noscale=noscale,\n            vertgrid=vertgrid\n        )", "            nogroup=nogroup, noscale=noscale,\n            vertgrid=vertgrid, mode=mode\n        )"),
+  (S, None, 'geoschemfiles/_bpchmaster.py', "            nogroup=nogroup, noscale=noscale,\n            vertgrid=vertgrid\n        )", "            vertgrid=vertgrid, noscale=noscale, nogroup=nogroup\n        )"),
+  (F, 'R-TAUPAIR', 'geoschemfiles/_newbpch.py', "            self._tau1 = tmpdata['header']['tau1']", "            self._tau1 = tmpdata['header']['tau0']"),
+  (F, 'R-PERBLOCK', 'geoschemfiles/_bpch.py', "    ttz = zip(ncffile.variables['tau0'], ncffile.variables['tau1'])", "    resv = getattr(var, 'reserved', ' ').ljust(40)\n    ttz = zip(ncffile.variables['tau0'], ncffile.variables['tau1'])"),
+]
+CATALOGUE['C18'][-1] = (F, 'R-PERBLOCK', 'geoschemfiles/_bpch.py',
+                        ("    ttz = zip(ncffile.variables['tau0'], ncffile.variables['tau1'])", "            header['reserved'] = getattr(var, 'reserved', ' ').ljust(40)"),
+                        ("    resv = getattr(var, 'reserved', ' ').ljust(40)\n    ttz = zip(ncffile.variables['tau0'], ncffile.variables['tau1'])", "            header['reserved'] = resv"))
+CATALOGUE['C19'] += [
+  (F, 'R-UNITFIELD', _FFI, "                    if len(nameunit) > 1:\n                        units.append(nameunit[1].strip())", "                    if len(nameunit) > 1 and nameunit[1].strip():\n                        units.append(nameunit[1].strip())"),
+  (F, 'R-DATASHAPE', _FFI, "        data = data.reshape(ndatalines, len(variables))\n", ""),
+  (F, 'R-MISSFMT', _FFI, "[str(getattr(f.variables[k], 'missing_value', -999))", "['%g' % getattr(f.variables[k], 'missing_value', -999)"),
+  (S, None, _FFI, "[str(getattr(f.variables[k], 'missing_value', -999))", "[repr(getattr(f.variables[k], 'missing_value', -999))"),
+  (S, None, _FFI, "[str(getattr(f.variables[k], 'missing_value', -999))", "['%.8e' % getattr(f.variables[k], 'missing_value', -999)"),
+]
+CATALOGUE['C20'] += [
+  (F, 'R-ABSMAX', _ARL, "    colmax = np.abs(np.diff(RVAR, axis=1)).max()", "    colmax = np.abs(np.diff(RVAR, axis=1).max())"),
+  (S, None, _ARL, "    colmax = np.abs(np.diff(RVAR, axis=1)).max()", "    colmax = np.max(np.abs(np.diff(RVAR, axis=1)))"),
+  (F, 'R-GRIDSLOT', _ARL, "    out['NY'] = int(fheader['NY']) + gridy_off", "    out['NY'] = int(fheader['NY']) + gridx_off"),
+  (F, 'R-VGTXT', _ARL, "            dp = np.floor(np.log10(vglvl) + 1)", "            dp = np.ceil(np.log10(vglvl))"),
+  (S, None, _ARL, "            dp = np.floor(np.log10(vglvl) + 1)", "            dp = np.floor(np.log10(vglvl)) + 1"),
+]
+
+CATALOGUE['C08'] += [
+  (F, 'R-INPLACEALIAS', 'camxfiles/uamiv/Write.py', "        date_e = date_s.copy()\n        time_e = time_s.copy() + tincr", "        date_e = date_s\n        time_e = time_s + tincr"),
+  (S, None, 'camxfiles/uamiv/Write.py', "        date_e = date_s.copy()\n        time_e = time_s.copy() + tincr", "        date_e = date_s + 0\n        time_e = time_s + tincr"),
+  (F, 'R-CONVERT', 'camxfiles/one3d/Write.py', "            v2d = v2d.astype('>f')", "            v2d = v2d.view('>f')"),
+  (S, None, 'camxfiles/one3d/Write.py', "            v2d = v2d.astype('>f')", "            v2d = v2d.astype('>f4')"),
+]
+CATALOGUE['C13'] += [
+  (F, 'R-RANGEEND', 'camxfiles/timetuple.py', "    date2, time2 = timeadd((date2, time2), (0, 0), eod)\n", ""),
+  (F, 'R-WINDSCAN', 'camxfiles/wind/Read.py', "                for i in range(self.nlayers * 2 + 1):", "                for i in range(self.nlayers * 2):"),
+  (S, None, 'camxfiles/wind/Read.py', "                for i in range(self.nlayers * 2 + 1):", "                for i in range(1 + 2 * self.nlayers):"),
+  (F, 'R-SELPARAM', 'camxfiles/height_pressure/Read.py', "        self.seek(date, time, k, hp)\n        return self.read_into(dest)", "        self.seek(date, time, k)\n        return self.read_into(dest)"),
+]
+
 
 def _findings(prop, overlay):
     warnings.simplefilter('ignore')
@@ -180,9 +259,12 @@ def _one(args):
     kind, rule, rp, old, new = entry
     src = engine.Source()
     text = src.text(rp)
-    if text.count(old) < 1:
+    olds, news = (old, new) if isinstance(old, tuple) else ((old,), (new,))     # several edits of one file form one variant
+    if any(text.count(o) < 1 for o in olds):
         return (prop, i, 'skipped', 'anchor text not present any more')
-    mutated = text.replace(old, new, 1)
+    mutated = text
+    for o, n_ in zip(olds, news):
+        mutated = mutated.replace(o, n_, 1)
     try:
         compile(mutated, rp, 'exec')
     except SyntaxError as e:
